@@ -33,7 +33,9 @@ RULE = ("random factored state spaces (1..3 factors, sizes 1..3), 0..4 basis fun
         "more than one state factor and at least one tag with more than one key; 40 % of the cases are cooperative factored MDPs "
         "(1..3 state factors, 1..2 agents, half of them products of independent components, random DDN, factored rewards with "
         "zeros, discount 1/4 1/2 3/4, bases incl. an all-ones basis) run through LinearProgramming and the flat LP over every (s,a); "
-        "the returned Q-function is compared with its model and with R + gamma P V_w at every (s,a)")
+        "the returned Q-function is compared with its model and with R + gamma P V_w at every (s,a); object reuse: 15 % of the "
+        "cases call ONE FactoredLP object 2..3 times (same inputs, new target, or different bases over the same space) and 8 % use "
+        "ONE LinearProgramming object on two models — every call judged like a call on a fresh object")
 
 
 def L(xs): return "%d %s" % (len(xs), " ".join(map(str, xs))) if xs else "0"
@@ -64,9 +66,8 @@ def rbasis(rng, S, indicator=False):
     return "%s %s" % (L(tag), L(vals))
 
 
-def gen_flp(rng):
-    nf = rng.choice([1, 2, 2, 3, 3, 3])
-    S = [rng.choice([1, 2, 2, 3, 3]) for _ in range(nf)]
+def flp_call(rng, S):
+    """<addConst> <C> <b> for one call on the state space S"""
     ac = 1 if rng.random() < 0.4 else 0
     nC = rng.choice([0, 1, 1, 2, 2, 3, 3, 4])
     if ac and nC == 0 and rng.random() < 0.6: nC = 1      # constant basis alone: kept in 40 % of those draws
@@ -74,7 +75,44 @@ def gen_flp(rng):
     ind = rng.random() < 0.3
     C = [rbasis(rng, S, indicator=ind and rng.random() < 0.8) for _ in range(nC)]
     B = [rbasis(rng, S) for _ in range(nB)]
-    return "flp %s %d %d %s %d %s" % (L(S), ac, nC, " ".join(C), nB, " ".join(B))
+    return "%d %d %s %d %s" % (ac, nC, " ".join(C), nB, " ".join(B))
+
+
+def rspace(rng):
+    nf = rng.choice([1, 2, 2, 3, 3, 3])
+    return [rng.choice([1, 2, 2, 3, 3]) for _ in range(nf)]
+
+
+def gen_flp(rng):
+    S = rspace(rng)
+    return "flp %s %s" % (L(S), flp_call(rng, S))
+
+
+def gen_flpr(rng):
+    """ONE FactoredLP object called 2..3 times: same inputs again, a new target for the same bases (the
+    approximate value-iteration use), or entirely different C / b over the same state space"""
+    S = rspace(rng)
+    n = rng.choice([2, 2, 3])
+    calls = [flp_call(rng, S)]
+    while len(calls) < n:
+        u = rng.random()
+        if u < 0.25:
+            calls.append(calls[-1])
+        elif u < 0.6:
+            toks = calls[-1].split()
+            # keep <ac> <C>, redraw <b>: re-emit by regenerating b only
+            ac = int(toks[0]); nC = int(toks[1])
+            # parse C to find where b starts
+            pos = 2
+            for _ in range(nC):
+                k = int(toks[pos]); pos += 1 + k
+                m = int(toks[pos]); pos += 1 + m
+            nB = rng.choice([1, 1, 2, 3])
+            B = [rbasis(rng, S) for _ in range(nB)]
+            calls.append(" ".join(toks[:pos]) + " %d %s" % (nB, " ".join(B)))
+        else:
+            calls.append(flp_call(rng, S))
+    return "flpr %s %d %s" % (L(S), n, " ".join(calls))
 
 
 def rkeys(rng, n, kmax=None):
@@ -148,5 +186,11 @@ def gen(rng, tier):
     n = {"quick": 400, "thorough": 4000, "search": 1500}.get(tier, 400)
     out = []
     for _ in range(n):
-        out.append(gen_flp(rng) if rng.random() < 0.6 else gen_mlp(rng))
+        u = rng.random()
+        if u < 0.45: out.append(gen_flp(rng))
+        elif u < 0.6: out.append(gen_flpr(rng))
+        elif u < 0.92: out.append(gen_mlp(rng))
+        else:
+            # ONE LinearProgramming object used on two different models
+            out.append("mlpr 2 %s %s" % (gen_mlp(rng)[4:], gen_mlp(rng)[4:]))
     return out
